@@ -1,5 +1,161 @@
-(* Properties/C17.v — placeholder while the proofs are being written. *)
-From WK Require Import Base.Base Model.RuntimeMeta Model.ChanMigration Model.ChanMigration_C17.
-Theorem c17_placeholder : C17_monitor (C17Case []) = 0.
-Proof. reflexivity. Qed.
-Print Assumptions c17_placeholder.
+(* Properties/C17.v — C17: channel migration cutover is fenced and irreversible.
+
+   Model: Model/ChanMigration.v (task rows, the twelve migration commands of
+   pkg/db/meta/compat.go applied through the ApplyBatch of pkg/slot/fsm: staging, commit
+   with overlay maps, stale fallback), runtime-meta rows from Model/RuntimeMeta.v.
+   Monitor: Model/ChanMigration_C17.v.  Every theorem is closed under the global context. *)
+From WK Require Import Base.Base.
+From WK Require Import Gen.Consts_C15 Gen.Consts_C17 Model.RuntimeMeta Model.ChanMigration Model.ChanMigration_C17.
+From WK Require Import Proof.RuntimeMeta Proof.ChanMigration Proof.ChanMigration_cmds Proof.ChanMigration_inv
+                       Proof.ChanMigration_witness.
+Open Scope N_scope.
+
+(* ---- 1. a cutover commits only with a matching drain proof ---------------------------------------
+
+   Whenever the commit of a batch (any batch, any position) accepts a
+   CommitChannelLeaderTransfer or PromoteLearnerAndRemoveReplica, the task row [t] and the
+   runtime-meta row [m] it loaded satisfy [cutover_proof_matches]: the drain proof stored in
+   the task is complete, DrainedFenceVersion = m.WriteFenceVersion = the expected version <> 0,
+   DrainedChannelEpoch / DrainedLeaderEpoch / DrainedLeaderNode are m's current channel epoch,
+   leader epoch and leader, the fence token is the task id (task and meta agree on token and
+   version), NowMS <= m.WriteFenceUntilMS, and both optimistic guards match. *)
+Theorem c17_commit_needs_proof :
+  forall d cs c h cs',
+    is_cutover c = true -> cmd_trans c = Some h ->
+    stageChannelMigrationTaskAndMeta d cs c = Ok cs' ->
+    exists t m,
+      loadChannelMigrationTask d cs (tguard_key (tr_guard h)) = Some t
+      /\ loadRuntimeMeta d cs (rguard_chan (tr_rguard h)) = Some m
+      /\ cutover_proof_matches t m h (cutover_now c) = true.
+Proof. exact stage_cutover_needs_proof. Qed.
+Print Assumptions c17_commit_needs_proof.
+
+(* ---- 2. at most one active task per channel ---------------------------------------------------------
+
+   [db_inv d]: task rows have distinct keys and every active task is the one the active index of
+   its channel points at.  It holds of the empty database, every one-command ApplyBatch
+   preserves it (whatever the command and its outcome), and under it two active tasks of one
+   channel are the same row.  (Multi-command batches: see c17_batch_double_active_refuted.) *)
+Theorem c17_single_active_step :
+  forall d c d' r, db_inv d -> apply_one d c = (d', r) -> db_inv d'.
+Proof. exact apply_one_inv. Qed.
+Print Assumptions c17_single_active_step.
+
+Theorem c17_single_active :
+  forall cs t1 t2,
+    let d := run_singles db_empty cs in
+    In t1 (db_tasks d) -> In t2 (db_tasks d) ->
+    isActive t1 = true -> isActive t2 = true -> task_chan t1 = task_chan t2 ->
+    t1 = t2 /\ active_get d (task_chan t1) = Some (t_task_id t1).
+Proof. exact run_singles_single_active. Qed.
+Print Assumptions c17_single_active.
+
+(* ---- 3. a committed or promoted task can no longer be aborted (per command) ------------------------
+
+   An Abort applied to a task that is terminal or whose phase is VerifyNewLeader,
+   VerifyMembership or ClearFence is rejected: the mutator returns ErrConflict, so the stage
+   function returns a stale-class error and writes nothing. *)
+Theorem c17_abort_rejected_post_commit :
+  forall d cs h completed last_error t,
+    loadChannelMigrationTask d cs (tguard_key (tr_guard h)) = Some t ->
+    isTerminal t || post_commit_phase (t_phase t) = true ->
+    exists e, stageChannelMigrationTaskAndMeta d cs (CAbort h completed last_error) = Err e
+              /\ isStaleMetaCommitError e = true.
+Proof. exact stage_abort_rejected_post_commit. Qed.
+Print Assumptions c17_abort_rejected_post_commit.
+
+(* ---- 4. no command overwrites or clears another task's fence ----------------------------------------
+
+   A guarded task+meta command applied to task [t] and meta row [m] either leaves the four
+   write-fence fields alone, or the fence was free or held by t's id before AND is free or held
+   by t's id afterwards.  (Normalisation and the route-generation bump of the stage function do
+   not touch the fence fields: fence_stored.) *)
+Theorem c17_fence_ownership :
+  forall c t m t' m',
+    mutate_task_meta c t m = Ok (t', m') ->
+    fence_eqb m m' = true
+    \/ (fence_free_or m (t_task_id t) /\ fence_free_or m' (t_task_id t)).
+Proof. exact mutate_fence_ownership. Qed.
+Print Assumptions c17_fence_ownership.
+
+Theorem c17_fence_untouched_by_normalisation :
+  forall ex m, fence_eqb m (bumpRuntimeRoute ex (normalizeChannelRuntimeMeta m) true) = true.
+Proof. exact fence_stored. Qed.
+Print Assumptions c17_fence_untouched_by_normalisation.
+
+(* ---- 5. every accepted step leaves the channel metadata valid ----------------------------------------
+
+   Whatever stageChannelMigrationTaskAndMeta writes passed validateChannelRuntimeMeta (and the
+   task row validateChannelMigrationTask); a row that passes it has, after normalisation, a
+   non-empty replica set, 1 <= MinISR <= |replicas|, ISR within replicas, and a leader that is
+   0 or a member of both. *)
+Theorem c17_meta_valid :
+  forall d cs c cs',
+    stageChannelMigrationTaskAndMeta d cs c = Ok cs' ->
+    cs' = cs
+    \/ exists h t m, cmd_trans c = Some h
+         /\ loadChannelMigrationTask d cs' (tguard_key (tr_guard h)) = Some t
+         /\ loadRuntimeMeta d cs' (rguard_chan (tr_rguard h)) = Some m
+         /\ validateChannelMigrationTask t = true /\ validateChannelRuntimeMeta m = true
+         /\ meta_get (cs_pend cs') (rguard_chan (tr_rguard h)) = Some m.
+Proof. exact stage_writes_valid. Qed.
+Print Assumptions c17_meta_valid.
+
+Theorem c17_valid_meta_meaning :
+  forall m, validateChannelRuntimeMeta m = true -> meta_wellformed (normalizeChannelRuntimeMeta m).
+Proof. exact validate_meaning. Qed.
+Print Assumptions c17_valid_meta_meaning.
+
+(* ---- 6. terminal tasks are immutable by the task+meta commands ----------------------------------------- *)
+Theorem c17_terminal_immutable_by_meta_cmds :
+  forall d cs c cs' h t,
+    cmd_trans c = Some h ->
+    loadChannelMigrationTask d cs (tguard_key (tr_guard h)) = Some t ->
+    isTerminal t = true ->
+    stageChannelMigrationTaskAndMeta d cs c = Ok cs' ->
+    loadChannelMigrationTask d cs' (tguard_key (tr_guard h)) = Some t.
+Proof. exact stage_terminal_immutable. Qed.
+Print Assumptions c17_terminal_immutable_by_meta_cmds.
+
+(* ---- 7. the temporal reading is FALSE of the code: three refutations (known findings) -----------------
+
+   K1: histories of one-command batches in which CommitChannelLeaderTransfer is accepted, a
+   generic AdvanceChannelMigrationTask (or Claim) then moves the task back to a pre-commit phase
+   and AbortChannelMigration is accepted.  K2: same with ResetChannelWriteFenceToPreCutover on an
+   expired fence.  K3: one two-command batch after which a channel has two active tasks.
+   Each witness is corpus/C17/k*.json; the model reproduces every row the real code showed. *)
+Theorem c17_rewind_abort_refuted :
+  exists bs, all_single bs = true /\ abort_after_cutover db_empty [] bs = true.
+Proof. exact rewind_abort_refuted. Qed.
+Print Assumptions c17_rewind_abort_refuted.
+
+Theorem c17_rewind_abort_monitor_code :
+  C17_mismatch k1_advance_rewind_abort_case = false /\ C17_monitor k1_advance_rewind_abort_case = 2
+  /\ C17_mismatch k1_claim_rewind_abort_case = false /\ C17_monitor k1_claim_rewind_abort_case = 2.
+Proof. exact rewind_abort_monitor_code. Qed.
+Print Assumptions c17_rewind_abort_monitor_code.
+
+Theorem c17_reset_rewind_abort_refuted :
+  C17_mismatch k2_reset_rewind_abort_case = false
+  /\ all_single (batches_of k2_reset_rewind_abort_case) = true
+  /\ abort_after_cutover db_empty [] (batches_of k2_reset_rewind_abort_case) = true
+  /\ C17_monitor k2_reset_rewind_abort_case = 3.
+Proof. exact c17_reset_rewind_abort_refuted_witness. Qed.
+Print Assumptions c17_reset_rewind_abort_refuted.
+
+Theorem c17_batch_double_active_refuted :
+  C17_mismatch k3_batch_double_active_case = false
+  /\ double_active (run_batches db_empty (removelast (batches_of k3_batch_double_active_case))) = false
+  /\ double_active (run_batches db_empty (batches_of k3_batch_double_active_case)) = true
+  /\ C17_monitor k3_batch_double_active_case = 4.
+Proof. exact c17_batch_double_active_refuted_witness. Qed.
+Print Assumptions c17_batch_double_active_refuted.
+
+(* ---- non-vacuity ------------------------------------------------------------------------------------------ *)
+
+(* a replica replacement whose embedded leader-transfer leg commits, ends with ClearFence ->
+   AddLearner, and is then aborted: accepted by the code and NOT a violation *)
+Example c17_embedded_leg_then_abort_is_fine :
+  C17_mismatch r03_embedded_leg_then_abort_case = false /\ C17_monitor r03_embedded_leg_then_abort_case = 0.
+Proof. exact c17_embedded_leg_then_abort_ok. Qed.
+Print Assumptions c17_embedded_leg_then_abort_is_fine.
